@@ -266,11 +266,18 @@ class UAIReader(object):
             model.add_edges_from(self.edges)
 
             tabular_cpds = []
-            for child_var, values in self.tables:
+            parsed = self.grammar.parseString(self.network)
+            for function, (child_var, values) in enumerate(self.tables):
                 states = int(self.domain[child_var])
                 values = np.fromiter(values, dtype=float)
                 values = values.reshape(states, values.size // states)
-                parents = list(model.predecessors(child_var))
+                # The table is laid out in the order of the function's scope as written in
+                # the file (UAIWriter lists the evidence reversed, then the child), not in
+                # the iteration order of the edge set.
+                scope = parsed["fun_" + str(function)]
+                if isinstance(scope, int):
+                    scope = [scope]
+                parents = ["var_" + str(var) for var in list(scope)[:-1]][::-1]
                 if len(parents) == 0:
                     tabular_cpds.append(TabularCPD(child_var, states, values))
                 else:
